@@ -282,7 +282,7 @@ var pureAllow = []string{
 	"fmt.", "errors.", "strconv.", "strings.", "(*strings.Builder)", "github.com/pkg/errors.", "github.com/go-kit/log", "(github.com/go-kit/log",
 	"github.com/go-kit/log/level.", "time.", "(time.Time)", "(time.Duration)", "math.", "unicode", "bytes.", "sort.Search",
 	"(github.com/prometheus/client_golang/prometheus", "github.com/prometheus/client_golang/prometheus", "(*github.com/prometheus/client_golang/prometheus",
-	"github.com/thanos-io/thanos/pkg/tracing.", "(github.com/opentracing/opentracing-go", "github.com/opentracing/opentracing-go",
+	"github.com/thanos-io/thanos/pkg/tracing.", "(github.com/thanos-io/thanos/pkg/tracing.", "(*net/http.Request).Context", "(net/http.Header).Get","(github.com/opentracing/opentracing-go", "github.com/opentracing/opentracing-go",
 	"(error).Error", "(context.Context)", "context.", "net/http.Error", "net/http.StatusText", "google.golang.org/grpc/status.", "google.golang.org/grpc/codes.",
 	"(*google.golang.org/grpc/status.Status)", "github.com/weaveworks/common/httpgrpc.Errorf", "(github.com/oklog/ulid", "github.com/oklog/ulid",
 	"(*go.uber.org/atomic", "path.", "path/filepath.", "(github.com/prometheus/prometheus/model/labels.Labels)", "(*github.com/prometheus/prometheus/model/labels.Matcher)",
@@ -445,6 +445,9 @@ func (e *Engine) verifyFunction(key string) (res *FuncResult) {
 		f.params[fv.Name()] = f.sval(v, fv.Type())
 	}
 	c.assume(ge(c.nalloc(f.heap), tZero))
+	for _, g := range e.ghosts {
+		c.heapGet(f.heap, "G "+g.Name, arraySort(SInt, specSort(g.Sort))) // register ghost state at entry
+	}
 	env := f.baseEnv(f.heap)
 	var deferred []Let
 	for _, l := range ct.Lets {
